@@ -44,6 +44,59 @@ MANIFEST = {
 }
 
 
+def run_closing(ctx, prog):
+    """T7.gap: format_int_list walks the sorted values; inside the loop a finished run (or single value) is written to the
+    output only when the current value leaves a gap.  On every path, the integer tests the iteration took on the difference
+    `x - <last of run>` must exclude 0 (a repeated value) and 1 (a contiguous value): otherwise a duplicate closes the run and
+    reopens it at the same value ('5-6,6-7'), which is neither canonical nor duplicate-free when parsed back."""
+    import operator as _op
+    fil = prog.func('strutils.format_int_list')
+    w, paths = paths_of(prog, fil)
+    OPS = {ast.Gt: _op.gt, ast.GtE: _op.ge, ast.Lt: _op.lt, ast.LtE: _op.le, ast.Eq: _op.eq, ast.NotEq: _op.ne}
+    outs = {n.targets[0].id for n in ast.walk(fil.node) if isinstance(n, ast.Assign) and len(n.targets) == 1 and
+            isinstance(n.targets[0], ast.Name) and isinstance(n.value, ast.List) and not n.value.elts}
+    n_close = 0
+    seen = {}
+    for p in paths:
+        bounds = [o for o in p.ops if o.kind == 'iter_next']
+        for i, it in enumerate(bounds):
+            if it.info is False:
+                continue
+            end = bounds[i + 1].seq if i + 1 < len(bounds) else 10 ** 9
+            closes = [o for o in p.ops if it.seq < o.seq < end and o.kind == 'call' and isinstance(o.val.func, ast.Attribute) and
+                      o.val.func.attr == 'append' and isinstance(o.val.func.value, ast.Name) and
+                      (o.val.func.value.id in outs or (o.val.func.value.id.startswith('$l') and
+                                                       (w.tokens.get(o.val.func.value.id) or ('', ''))[:2] == ('fresh', 'list')))]
+            if not closes:
+                continue
+            n_close += 1
+            cons = []
+            for o in p.ops:
+                if not (it.seq < o.seq < closes[0].seq) or o.kind != 'test':
+                    continue
+                e = w.expand(o.val) if o.val is not None else None
+                neg = False
+                while isinstance(e, ast.UnaryOp) and isinstance(e.op, ast.Not):
+                    e, neg = e.operand, not neg
+                if isinstance(e, ast.Compare) and len(e.ops) == 1 and type(e.ops[0]) in OPS and isinstance(e.left, ast.BinOp) and \
+                        isinstance(e.left.op, ast.Sub) and isinstance(e.comparators[0], ast.Constant) and \
+                        isinstance(e.comparators[0].value, int):
+                    truth = o.info if isinstance(o.info, bool) else None
+                    if truth is None:
+                        continue
+                    cons.append((OPS[type(e.ops[0])], e.comparators[0].value, truth != neg))
+            admits = [d for d in (0, 1) if all(f(d, c) == t for f, c, t in cons)]
+            key = closes[0].line
+            ok = not admits
+            if seen.get(key, True):
+                seen[key] = ok
+                ctx.ob('T7.gap', fil.fq, 'inside the loop a run is closed only when the current value leaves a gap (the tests taken on '
+                       '`x - <end of run>` exclude 0 and 1)', ok, loc=loc(fil, closes[0].node),
+                       detail='differences admitted: %s' % admits if admits else '', path=p.describe() if not ok else None)
+    if n_close == 0:
+        ctx.unknown('T7.gap', fil.fq, 'no write to the output list inside the loop found', fil.loc)
+
+
 def run(ctx):
     prog = ctx.program
     mod = prog.module('strutils')
@@ -319,5 +372,6 @@ def run(ctx):
                ok, loc=cil.loc, detail='returns %s' % txt(rv)[:80], path=pth.describe() if not ok else None)
     if n_r == 0:
         ctx.unknown('T17.compl', cil.fq, 'no return path', cil.loc)
+    run_closing(ctx, prog)
     for r, n in (('T12.form', 1), ('T12.shsafe', 60), ('T13.sh', 4), ('T17.dispatch', 1), ('T12.gzip', 2), ('T19c', 1)):
         ctx.need(r, n)
